@@ -103,3 +103,13 @@ Print Assumptions C10_call_unmanaged_subsequence.
 Print Assumptions C10_call_unmanaged_kw_kept.
 Print Assumptions C10_dict_unmanaged_subsequence.
 Print Assumptions C10_dict_unmanaged_kept_nofix.
+
+(* user-controlled parts below lists, tuples, dict displays and constructor calls nested in each other at ANY depth (Model/Nest.v): whatever is
+   approved and whatever is observed, no code is ever generated for such a part, none is duplicated or reordered; the ones that remain are a
+   subsequence of the old ones (the others vanished together with the element / entry / argument or the replaced holder that held them) *)
+From V Require Model.Nest Proofs.NestProofs.
+Theorem C10_nest_unmanaged_subsequence :
+  forall (ct : Nest.ctab) (f : nat) (F : flags) (o : Nest.ntree) (n : Nest.nval),
+  subseq (NestProofs.unms_r (Nest.assign ct f F o n)) (NestProofs.unms o).
+Proof. exact NestProofs.nest_unmanaged_subsequence. Qed.
+Print Assumptions C10_nest_unmanaged_subsequence.
